@@ -1174,6 +1174,25 @@ theorem whole_link_density (directed : Bool) (A : Adj)
 example : internalLinkDensity false (fun a b => a != b) [2, 0, 1]
     = netLinkDensity 3 (fun a b => a != b) := by decide +kernel
 
+open Pyunicorn.Generated in
+/-- `Network.n_links` and `Network.link_density` as the adjacency setter computes them
+(`1.0 * n_links / N / (N - 1)`, then `n_links //= 2` under `if not self.directed`) — regenerated
+from the current `network.py` — are the model's `netNLinks` / `netLinkDensity`, the right-hand
+sides of `whole_n_links` / `whole_link_density` -/
+theorem arith_net_links (directed : Bool) (n : Nat) (A : Adj) (h : n * (n - 1) ≠ 0) :
+    ((netNLinks directed n A : Nat) : Int)
+        = (if ArithC11.netHalveGuard directed then
+            ArithC11.netNLinksUndirected ((netNonzeros n A : Nat) : Int)
+           else ((netNonzeros n A : Nat) : Int))
+      ∧ netLinkDensity n A
+        = some (ArithC11.netLinkDensityExpr ((netNonzeros n A : Nat) : Int) (n : Int)) := by
+  constructor
+  · cases directed <;> simp [netNLinks, ArithC11.netHalveGuard, ArithC11.netNLinksUndirected]
+  · simp only [netLinkDensity, h, if_false, ArithC11.netLinkDensityExpr]
+    push_cast
+    rfl
+
+
 /-! ### whole-network limits of the n.s.i. measures (`A⁺ = A + I`) -/
 
 /-- **whole-network limit of the n.s.i. local clustering**: on an undirected loop-free network
